@@ -22,6 +22,12 @@ bool G_ka_valid; size_t G_ka_pos, G_ka_end, G_ka_a;   /* the segment in which "k
 #define SAT(i) ((i) <= RRC_MAXLEN ? (i) : 0)                  /* spec-side index arithmetic cannot wrap */
 #define FEND(r, s) ((r) == IORA_NPOS ? (s).n : (r))
 
+#ifdef IORA_SEARCH
+/* bounded build: plain executable bodies (libstdc++ semantics written as loops) */
+static inline size_t rrc_find_comma(const iora_sv *s, size_t pos) { for (size_t i = pos; i < s->n; i++) if (s->p[i] == (char)44) return i; return IORA_NPOS; }
+static inline size_t rrc_find_first_not_ows(const iora_sv *s, size_t pos) { for (size_t i = pos; i < s->n; i++) if (!V_OWS(s->p[i])) return i; return IORA_NPOS; }
+static inline size_t rrc_find_last_not_ows(const iora_sv *s, size_t pos) { if (s->n == 0) return IORA_NPOS; size_t i = (pos < s->n - 1 ? pos : s->n - 1) + 1; while (i > 0) { if (!V_OWS(s->p[i - 1])) return i - 1; i--; } return IORA_NPOS; }
+#else
 /* value.find(',', pos) */
 static inline size_t rrc_find_comma(const iora_sv *s, size_t pos)
 {
@@ -57,6 +63,8 @@ static inline size_t rrc_find_last_not_ows(const iora_sv *s, size_t pos)
   if (G_cur_is_GS) G_snap_b = (r == IORA_NPOS ? 0 : r);
   return r;
 }
+
+#endif
 
 /* std::string token = value.substr(a, len); std::transform(..asciiLower..); token == "lit" */
 typedef struct { const char *p; size_t n; bool folded; } iora_tok;
